@@ -1,6 +1,536 @@
-import AGH.Spec.Filter
-namespace AGH.Filter
+/-
+C01 — a query blocked by rules is answered locally and never forwarded.
 
-theorem C01_placeholder : True := trivial
+Layer A theorems: they hold for EVERY pair of rule engines satisfying the
+interface contract `EnginesWF` (what urlfilter's `MatchRequest` guarantees
+about a positive answer), every configuration, every query and every upstream
+answer.  Layer B (`C01_rules_*`, further down) instantiates the engines with the
+model of urlfilter's rule semantics.
+
+Domain: queries the server answers itself before filtering (`reserved`: AAAA
+while AAAA is disabled, the Firefox canary name, the health-check name) are
+outside the property; legacy rewrites, hosts-file, safe browsing / parental /
+safe search are not part of the model.
+-/
+import AGH.Lemmas.FilterHandle
+import AGH.Lemmas.FilterRules
+set_option linter.unusedSimpArgs false
+namespace AGH.Filter
+open AGH AGH.Bytes
+
+/-- The model satisfies the executable spec predicate the driver evaluates on
+the implementation — for all engines, configurations, upstream answers and queries. -/
+theorem C01_model_meets_spec (e : Engines) (hwf : EnginesWF e) (c : Conf) (u : Upstream) (q : Query) :
+    C01.specOK e c u q (handle e c u q) = true := by
+  unfold C01.specOK C01.check handle
+  cases hres : reserved c q
+  · rw [shortCircuit_none c q hres]
+    simp only [Bool.false_eq_true, if_false]
+    cases hb : blockedByRules e c q
+    · simp only [Bool.false_eq_true, if_false]
+      cases hs : serviceMayBlock e c q
+      · obtain ⟨h1, h2, h3⟩ := handleMain_forward e hwf c u q hb hs
+        cases happ : respFilterApplies e c q
+        · obtain ⟨ql, hql, hnf, _⟩ := h1 happ
+          simp [hql, Upstream.exchange, deliveredUnchanged, hnf]
+        · cases hany : u.answer.any (offending e c)
+          · have hclean : ∀ rr ∈ u.answer, offending e c rr = false := by
+              intro rr hrr
+              cases ho : offending e c rr
+              · rfl
+              · have : u.answer.any (offending e c) = true := List.any_eq_true.mpr ⟨rr, hrr, ho⟩
+                rw [hany] at this; cases this
+            obtain ⟨ql, hql, hnf, _⟩ := h2 happ hclean
+            simp only [hql, Upstream.exchange]
+            cases hd : c.aaaaDisabled <;>
+              simp [hany, deliveredUnchanged, hd, hnf, stripC, eraseAll]
+          · -- some record is offending: C02's business, but still forwarded exactly once
+            obtain ⟨rr, hrr, ho⟩ := List.any_eq_true.mp hany
+            have hfind : ∃ x, u.answer.find? (offending e c) = some x := by
+              cases hf : u.answer.find? (offending e c) with
+              | some x => exact ⟨x, rfl⟩
+              | none =>
+                have := List.find?_eq_none.mp hf rr hrr
+                simp [ho] at this
+            obtain ⟨x, hx⟩ := hfind
+            obtain ⟨pre, post, hsplit, hpre, hox⟩ := find_split _ _ _ hx
+            rw [offending_eq] at hox
+            cases hfb : firstBlocked e c x with
+            | none => simp [hfb] at hox
+            | some ht =>
+              obtain ⟨r, _, hr⟩ := h3 happ pre x post ht.1 ht.2 hsplit hpre hfb
+              have hqn := genDNSFilterMessage_question c q r
+              simp [hr, hqn.1, hqn.2, hany]
+      · obtain ⟨res, hh, hips⟩ := handleMain_serviceOnly e hwf c u q hb hs
+        have hsyn := genDNSFilterMessage_synthetic c q res (by simp [hips]) (by simp [hips])
+        rw [hips] at hsyn
+        simp [hh, hsyn]
+    · obtain ⟨res, hh, hreason, hips⟩ := handleMain_blocked e hwf c u q hb
+      have hfam := hostRuleIPs_family e hwf c (qhost q) q.qtype
+      have hsyn := genDNSFilterMessage_synthetic c q res (by rw [hips]; exact hfam.1) (by rw [hips]; exact hfam.2)
+      rw [hips] at hsyn
+      simp only [hh, if_true, List.isEmpty_nil, Bool.not_true, Bool.false_eq_true, if_false, hsyn]
+      rcases hreason with h | h <;> simp [h]
+  · simp
+
+/-- **Blocked ⇒ answered locally, never forwarded.**  With protection and
+filtering on, a name that matches a blocking rule / hosts-style line / blocked
+service and no allow rule gets the blocking mode's synthetic response, the
+upstream is not contacted at all, and the query-log record says "filtered". -/
+theorem C01_blocked_not_forwarded (e : Engines) (hwf : EnginesWF e) (c : Conf) (u : Upstream) (q : Query)
+    (hdom : reserved c q = false) (hb : blockedByRules e c q = true) :
+    ∃ m ql, handle e c u q = .done m [] (some ql) ∧
+      syntheticOK c q (hostRuleIPs e c (qhost q) q.qtype q.qtype) m = true ∧
+      ql.isFiltered = true ∧ (ql.reason = .blockList ∨ ql.reason = .blockedService) := by
+  obtain ⟨res, hh, hreason, hips⟩ := handleMain_blocked e hwf c u q hb
+  have hfam := hostRuleIPs_family e hwf c (qhost q) q.qtype
+  have hsyn := genDNSFilterMessage_synthetic c q res (by rw [hips]; exact hfam.1) (by rw [hips]; exact hfam.2)
+  rw [hips] at hsyn
+  refine ⟨_, { reason := res.reason, isFiltered := true, svcName := res.svcName, origAnswer := none },
+    ?_, hsyn, rfl, hreason⟩
+  unfold handle; rw [shortCircuit_none c q hdom, hh]
+
+/-- **No upstream data.**  The whole outcome of a blocked query is the same
+whatever the upstream would have answered. -/
+theorem C01_blocked_independent_of_upstream (e : Engines) (hwf : EnginesWF e) (c : Conf)
+    (u u' : Upstream) (q : Query) (hdom : reserved c q = false) (hb : blockedByRules e c q = true) :
+    handle e c u q = handle e c u' q := by
+  obtain ⟨res, hh, _, _⟩ := handleMain_blocked e hwf c u q hb
+  obtain ⟨res', hh', _, _⟩ := handleMain_blocked e hwf c u' q hb
+  have hck : ∀ u, ∃ r, checkHost e (trimDot q.name) q.qtype (settings c) = .ok r ∧ r.isFiltered = true ∧
+      handleMain e c u q = .done (genDNSFilterMessage c q r) []
+        (some { reason := r.reason, isFiltered := true, svcName := r.svcName, origAnswer := none }) := by
+    intro u
+    obtain ⟨r, hr, h1, _, _⟩ := checkHost_spec e hwf c q
+    exact ⟨r, hr, (h1 hb).1, by simp [handleMain, hr, (h1 hb).1]⟩
+  obtain ⟨r1, hr1, _, h1⟩ := hck u
+  obtain ⟨r2, hr2, _, h2⟩ := hck u'
+  have : r1 = r2 := by rw [hr1] at hr2; cases hr2; rfl
+  subst this
+  unfold handle; rw [shortCircuit_none c q hdom, h1, h2]
+
+/-- **The blocking-mode table** (5 modes × A / AAAA / HTTPS / other): the
+response generated for a filtered result is the one the mode prescribes. -/
+theorem C01_mode_table (c : Conf) (q : Query) (res : Result)
+    (hA : q.qtype = tA → ∀ ip ∈ res.ips, ip.v6 = false)
+    (hAAAA : q.qtype = tAAAA → ∀ ip ∈ res.ips, ip.v6 = true) :
+    syntheticOK c q res.ips (genDNSFilterMessage c q res) = true :=
+  genDNSFilterMessage_synthetic c q res hA hAAAA
+
+/-- **Allowed ⇒ forwarded intact.**  A name matched by an allow rule is sent
+upstream exactly once and the upstream's message is delivered as is (same
+question, rcode and records), whatever the block lists and services say. -/
+theorem C01_allow_forwarded (e : Engines) (hwf : EnginesWF e) (c : Conf) (u : Upstream) (q : Query)
+    (hdom : reserved c q = false) (_hp : protectionOn c = true) (hf : filteringOn c = true)
+    (ha : allowedName e c (qhost q) q.qtype = true) :
+    ∃ ql, handle e c u q = .done (u.exchange q) [q] (some ql) ∧ ql.isFiltered = false := by
+  have hb : blockedByRules e c q = false := by
+    simp [blockedByRules, ruleBlockedName, serviceBlockedName, ha]
+  have hs : serviceMayBlock e c q = false := by simp [serviceMayBlock, hf]
+  have happ : respFilterApplies e c q = false := by simp [respFilterApplies, ha]
+  obtain ⟨ql, hql, hnf, _⟩ := (handleMain_forward e hwf c u q hb hs).1 happ
+  exact ⟨ql, by unfold handle; rw [shortCircuit_none c q hdom, hql], hnf⟩
+
+/-- **No match ⇒ forwarded intact.**  A name that is not blocked is sent
+upstream exactly once; if no answer record reveals a blocked name (C02) the
+upstream's message is delivered with the original question, rcode and records.
+The one edit the code makes: where response filtering runs and AAAA is
+disabled, HTTPS records lose their IPv6 hints. -/
+theorem C01_nomatch_forwarded (e : Engines) (hwf : EnginesWF e) (c : Conf) (u : Upstream) (q : Query)
+    (hdom : reserved c q = false) (hb : blockedByRules e c q = false) (hs : serviceMayBlock e c q = false)
+    (hclean : ∀ rr ∈ u.answer, offending e c rr = false) :
+    ∃ ql, ql.isFiltered = false ∧
+      handle e c u q =
+        .done { u.exchange q with
+                answer := if respFilterApplies e c q && c.aaaaDisabled then u.answer.map stripRR else u.answer }
+          [q] (some ql) := by
+  obtain ⟨h1, h2, _⟩ := handleMain_forward e hwf c u q hb hs
+  cases happ : respFilterApplies e c q
+  · obtain ⟨ql, hql, hnf, _⟩ := h1 happ
+    refine ⟨ql, hnf, ?_⟩
+    unfold handle; rw [shortCircuit_none c q hdom, hql]
+    simp [Upstream.exchange]
+  · obtain ⟨ql, hql, hnf, _⟩ := h2 happ hclean
+    refine ⟨ql, hnf, ?_⟩
+    unfold handle; rw [shortCircuit_none c q hdom, hql]
+    cases hd : c.aaaaDisabled
+    · have hid : stripC c = id := by funext rr; simp [stripC, hd]
+      rw [hid, List.map_id]; simp
+    · have hid : stripC c = stripRR := by funext rr; simp [stripC, hd]
+      rw [hid]; simp
+
+/-- The common case of the previous theorem: AAAA enabled ⇒ literally the upstream's message. -/
+theorem C01_nomatch_forwarded_exact (e : Engines) (hwf : EnginesWF e) (c : Conf) (u : Upstream) (q : Query)
+    (hdom : reserved c q = false) (hb : blockedByRules e c q = false) (hs : serviceMayBlock e c q = false)
+    (hclean : ∀ rr ∈ u.answer, offending e c rr = false) (hd : c.aaaaDisabled = false) :
+    ∃ ql, ql.isFiltered = false ∧ handle e c u q = .done (u.exchange q) [q] (some ql) := by
+  obtain ⟨ql, hnf, h⟩ := C01_nomatch_forwarded e hwf c u q hdom hb hs hclean
+  refine ⟨ql, hnf, ?_⟩
+  rw [h]; simp [hd, Upstream.exchange]
+
+/-- **Protection off ⇒ nothing is blocked**: whatever the rules, services and
+flags, the query is forwarded once and the upstream's message delivered untouched. -/
+theorem C01_protection_off (e : Engines) (hwf : EnginesWF e) (c : Conf) (u : Upstream) (q : Query)
+    (hdom : reserved c q = false) (hp : protectionOn c = false) :
+    ∃ ql, ql.isFiltered = false ∧ handle e c u q = .done (u.exchange q) [q] (some ql) := by
+  have hb : blockedByRules e c q = false := by simp [blockedByRules, hp]
+  have hs : serviceMayBlock e c q = false := by simp [serviceMayBlock, hp]
+  have happ : respFilterApplies e c q = false := by simp [respFilterApplies, hp]
+  obtain ⟨ql, hql, hnf, _⟩ := (handleMain_forward e hwf c u q hb hs).1 happ
+  exact ⟨ql, hnf, by unfold handle; rw [shortCircuit_none c q hdom, hql]⟩
+
+/-- **Filtering off for the client ⇒ not subject to rule lists**: the outcome
+does not depend on the block and allow engines at all (only blocked services,
+which are not rule lists, can still act). -/
+theorem C01_client_filtering_off (e e' : Engines) (c : Conf) (u : Upstream) (q : Query)
+    (hf : filteringOn c = false) (hsvc : e.svc = e'.svc) :
+    handle e c u q = handle e' c u q := by
+  have hoff : (protectionOn c && filteringOn c) = false := by simp [hf]
+  have hfs : (settings c).filtering = false := by rw [settings_filtering, hf]
+  have hck : checkHost e (trimDot q.name) q.qtype (settings c) = checkHost e' (trimDot q.name) q.qtype (settings c) := by
+    unfold checkHost
+    split
+    · rfl
+    · dsimp only
+      rw [matchHost_off e c _ _ hoff, matchHost_off e' c _ _ hoff]
+      unfold matchBlockedServices
+      rw [hsvc]
+  unfold handle handleMain
+  dsimp only
+  rw [hck]
+  cases shortCircuit c q with
+  | some o => rfl
+  | none =>
+    dsimp only
+    cases checkHost e' (trimDot q.name) q.qtype (settings c) with
+    | error f => rfl
+    | ok res => simp [hfs]
+
+/-- … and with filtering off and no blocked service in force matching, the query is simply forwarded. -/
+theorem C01_client_filtering_off_forwarded (e : Engines) (hwf : EnginesWF e) (c : Conf) (u : Upstream) (q : Query)
+    (hdom : reserved c q = false) (hf : filteringOn c = false) (hs : serviceMayBlock e c q = false) :
+    ∃ ql, ql.isFiltered = false ∧ handle e c u q = .done (u.exchange q) [q] (some ql) := by
+  have hb : blockedByRules e c q = false := by simp [blockedByRules, hf]
+  have happ : respFilterApplies e c q = false := by simp [respFilterApplies, hf]
+  obtain ⟨ql, hql, hnf, _⟩ := (handleMain_forward e hwf c u q hb hs).1 happ
+  exact ⟨ql, hnf, by unfold handle; rw [shortCircuit_none c q hdom, hql]⟩
+
+/-- **The allow engine is consulted first**: any match there (even a
+blocking-style line put into an allow list) makes the name allow-listed,
+whatever the block engine says. -/
+theorem C01_allow_engine_first (e : Engines) (hwf : EnginesWF e) (c : Conf) (h : Bytes) (t : Nat) (r : EngRes)
+    (hp : protectionOn c = true) (hf : filteringOn c = true)
+    (ha : e.allow (reqFor c h t) = some r) :
+    matchHost e h t (settings c) = .ok { reason := .allowList } := by
+  rw [matchHost_eq]
+  simp only [hp, hf, ha, Bool.not_true, if_true]
+  cases r with
+  | net wl => rfl
+  | hosts v4 v6 =>
+    have := hwf.allow_hosts _ _ _ ha
+    simp [processAllowList, this]
+
+/-- An `@@` exception among block lists / custom rules outranks blocked services. -/
+theorem C01_exception_beats_service (e : Engines) (hwf : EnginesWF e) (c : Conf) (u : Upstream) (q : Query)
+    (hdom : reserved c q = false) (hp : protectionOn c = true) (hf : filteringOn c = true)
+    (hx : e.block (reqFor c (qhost q) q.qtype) = some (.net true)) :
+    ∃ ql, handle e c u q = .done (u.exchange q) [q] (some ql) ∧ ql.isFiltered = false :=
+  C01_allow_forwarded e hwf c u q hdom hp hf (by simp [allowedName, hx])
+
+/-! ## Non-vacuity -/
+
+/-- "ads.example" -/
+def nAds : Bytes := [97, 100, 115, 46, 101, 120, 97, 109, 112, 108, 101]
+/-- "ok.ads.example" -/
+def nOkAds : Bytes := [111, 107, 46, 97, 100, 115, 46, 101, 120, 97, 109, 112, 108, 101]
+
+/-- a toy engine pair: `ads.example` is blocked by a network rule, `ok.ads.example` is
+matched by a blocking rule too but allow-listed -/
+def toyEngines : Engines where
+  allow := fun r => if r.host = nOkAds then some (.net true) else none
+  block := fun r => if r.host = nAds ∨ r.host = nOkAds then some (.net false) else none
+  svc := fun _ _ => false
+
+theorem toyEngines_wf : EnginesWF toyEngines where
+  allow_empty := by intro r h; simp [toyEngines, h, nOkAds]
+  block_empty := by intro r h; simp [toyEngines, h, nAds, nOkAds]
+  allow_hosts := by intro r v4 v6 h; simp only [toyEngines] at h; split at h <;> simp at h
+  block_hosts := by intro r v4 v6 h; simp only [toyEngines] at h; split at h <;> simp at h
+  block_v4 := by intro r v4 v6 h; simp only [toyEngines] at h; split at h <;> simp at h
+  block_v6 := by intro r v4 v6 h; simp only [toyEngines] at h; split at h <;> simp at h
+
+def toyConf : Conf :=
+  { mode := .nxdomain, bip4 := none, bip6 := none, ttl := 10, protEnabled := true, pause := .none,
+    filtering := true, aaaaDisabled := false, schedNow := false, services := [], client := none,
+    clientIP := { v6 := false, val := 167772161 } }
+
+/-- "Ads.Example." A -/
+def toyQ : Query := { name := [65, 100, 115, 46, 69, 120, 97, 109, 112, 108, 101, 46], qtype := tA }
+/-- "ok.ads.example." A -/
+def toyQ2 : Query := { name := [111, 107, 46, 97, 100, 115, 46, 101, 120, 97, 109, 112, 108, 101, 46], qtype := tA }
+
+/-- the hypotheses of `C01_blocked_not_forwarded` are satisfiable … -/
+example : reserved toyConf toyQ = false ∧ blockedByRules toyEngines toyConf toyQ = true := by
+  decide
+
+/-- … and so are those of `C01_allow_forwarded`. -/
+example : reserved toyConf toyQ2 = false ∧ protectionOn toyConf = true ∧ filteringOn toyConf = true ∧
+    allowedName toyEngines toyConf (qhost toyQ2) tA = true := by
+  decide
+
+/-- concrete instance: NXDOMAIN with a SOA, nothing sent upstream -/
+example : ∀ u, ∃ m ql, handle toyEngines toyConf u toyQ = .done m [] (some ql) ∧ m.rcode = rcNXDomain ∧ m.answer = [] := by
+  intro u
+  refine ⟨msgNXDOMAIN toyConf toyQ, { reason := .blockList, isFiltered := true, svcName := [], origAnswer := none }, ?_, rfl, rfl⟩
+  rfl
+
+/-! ## Layer B: theorems about the MODEL of urlfilter's rule semantics
+
+These speak about `AGH/Model/FilterRules.lean`, a model of a library; its
+agreement with the real urlfilter engines is checked by correspondence only. -/
+
+/-- The engines computed from rule lists satisfy the interface contract Layer A assumes. -/
+theorem C01_rules_engines_wf (block allow : List Rule) : EnginesWF (ruleEngines block allow) := by
+  have hempty : ∀ rs (r : DNSReq), r.host = [] → engineMatch rs (reqInfo r) = none := by
+    intro rs r h; simp [engineMatch, reqInfo, h]
+  have hhosts : ∀ rs (q : ReqInfo) v4 v6, engineMatch rs q = some (.hosts v4 v6) →
+      (v4.isEmpty && v6.isEmpty) = false ∧ (∀ ip ∈ v4, ip.v6 = false) ∧ (∀ ip ∈ v6, ip.v6 = true) := by
+    intro rs q v4 v6 h
+    unfold engineMatch at h
+    split at h
+    · cases h
+    · split at h
+      · cases h
+      · dsimp only at h
+        split at h
+        · cases h
+        · rename_i hne
+          simp only [Option.some.injEq, EngRes.hosts.injEq] at h
+          obtain ⟨h4, h6⟩ := h
+          refine ⟨?_, ?_, ?_⟩
+          · -- some hit exists, and it lands in one of the two lists
+            cases hh : hostHits (hostRules rs) q.host with
+            | nil => simp [hh] at hne
+            | cons x xs =>
+              rw [hh] at h4 h6
+              subst h4; subst h6
+              cases hx : x.v6 <;> simp [List.filter_cons, hx]
+          · intro ip hip; subst h4; simpa using (List.mem_filter.mp hip).2
+          · intro ip hip; subst h6; simpa using (List.mem_filter.mp hip).2
+  exact {
+    allow_empty := fun r h => hempty allow r h
+    block_empty := fun r h => hempty block r h
+    allow_hosts := fun r v4 v6 h => (hhosts allow _ v4 v6 h).1
+    block_hosts := fun r v4 v6 h => (hhosts block _ v4 v6 h).1
+    block_v4 := fun r v4 v6 h => (hhosts block _ v4 v6 h).2.1
+    block_v6 := fun r v4 v6 h => (hhosts block _ v4 v6 h).2.2 }
+
+/-- `@@…$important` beats everything. -/
+theorem C01_rules_important_exception_wins (rs : List Rule) (q : ReqInfo) (hq : q.host ≠ [])
+    (h : ∃ r ∈ matching rs q, r.whitelist = true ∧ r.important = true) :
+    engineMatch rs q = some (.net true) := by
+  obtain ⟨r, hr, hw, hi⟩ := h
+  cases hb : bestRank (matching rs q) with
+  | none => rw [(bestRank_none _).mp hb] at hr; simp at hr
+  | some k =>
+    have hge := bestRank_ge _ k hb r hr
+    obtain ⟨x, _, hxk⟩ := bestRank_attained _ k hb
+    have hr3 : r.rank = 3 := by simp [NetRule.rank, hw, hi]
+    have hk : k = 3 := by
+      rcases rank_cases x with h | h | h | h <;> omega
+    rw [engineMatch_net rs q hq k hb, hk]; rfl
+
+/-- `$important` beats a plain `@@` exception. -/
+theorem C01_rules_important_beats_exception (rs : List Rule) (q : ReqInfo) (hq : q.host ≠ [])
+    (h : ∃ r ∈ matching rs q, r.whitelist = false ∧ r.important = true)
+    (hno : ∀ r ∈ matching rs q, ¬(r.whitelist = true ∧ r.important = true)) :
+    engineMatch rs q = some (.net false) := by
+  obtain ⟨r, hr, hw, hi⟩ := h
+  cases hb : bestRank (matching rs q) with
+  | none => rw [(bestRank_none _).mp hb] at hr; simp at hr
+  | some k =>
+    have hge := bestRank_ge _ k hb r hr
+    obtain ⟨x, hx, hxk⟩ := bestRank_attained _ k hb
+    have hr2 : r.rank = 2 := by simp [NetRule.rank, hw, hi]
+    have hk : k = 2 := by
+      rcases rank_cases x with h | h | h | h
+      · exact absurd ⟨h.2.1, h.2.2⟩ (hno x hx)
+      all_goals omega
+    rw [engineMatch_net rs q hq k hb, hk]; rfl
+
+/-- a plain `@@` exception beats a plain blocking rule. -/
+theorem C01_rules_exception_beats_basic (rs : List Rule) (q : ReqInfo) (hq : q.host ≠ [])
+    (h : ∃ r ∈ matching rs q, r.whitelist = true)
+    (hno : ∀ r ∈ matching rs q, r.important = false) :
+    engineMatch rs q = some (.net true) := by
+  obtain ⟨r, hr, hw⟩ := h
+  cases hb : bestRank (matching rs q) with
+  | none => rw [(bestRank_none _).mp hb] at hr; simp at hr
+  | some k =>
+    have hge := bestRank_ge _ k hb r hr
+    obtain ⟨x, hx, hxk⟩ := bestRank_attained _ k hb
+    have hr1 : r.rank = 1 := by simp [NetRule.rank, hw, hno r hr]
+    have hxi := hno x hx
+    have hk : k = 1 := by
+      rcases rank_cases x with h | h | h | h
+      · simp [hxi] at h
+      · simp [hxi] at h
+      all_goals omega
+    rw [engineMatch_net rs q hq k hb, hk]; rfl
+
+/-- only blocking rules match ⇒ blocked by a network rule. -/
+theorem C01_rules_basic_blocks (rs : List Rule) (q : ReqInfo) (hq : q.host ≠ [])
+    (h : matching rs q ≠ []) (hno : ∀ r ∈ matching rs q, r.whitelist = false) :
+    engineMatch rs q = some (.net false) := by
+  cases hb : bestRank (matching rs q) with
+  | none => exact absurd ((bestRank_none _).mp hb) h
+  | some k =>
+    obtain ⟨x, hx, hxk⟩ := bestRank_attained _ k hb
+    have hxw := hno x hx
+    have hk : (k == 1 || k == 3) = false := by
+      rcases rank_cases x with h | h | h | h
+      · simp [hxw] at h
+      · simp [← hxk, h.1]
+      · simp [hxw] at h
+      · simp [← hxk, h.1]
+    rw [engineMatch_net rs q hq k hb, hk]
+
+/-- hosts-style lines count only when no network rule matches at all. -/
+theorem C01_rules_net_over_hosts (rs : List Rule) (q : ReqInfo) (hq : q.host ≠ [])
+    (h : matching rs q ≠ []) : ∃ wl, engineMatch rs q = some (.net wl) := by
+  cases hb : bestRank (matching rs q) with
+  | none => exact absurd ((bestRank_none _).mp hb) h
+  | some k => exact ⟨_, engineMatch_net rs q hq k hb⟩
+
+theorem C01_rules_hosts_only (rs : List Rule) (q : ReqInfo) (h : matching rs q = []) :
+    engineMatch rs q = none ∨
+    engineMatch rs q = some (.hosts ((hostHits (hostRules rs) q.host).filter (fun ip => !ip.v6))
+                                     ((hostHits (hostRules rs) q.host).filter (fun ip => ip.v6))) := by
+  unfold engineMatch
+  unfold matching at h
+  rw [h]
+  cases hq : q.host.isEmpty
+  · cases hh : (hostHits (hostRules rs) q.host).isEmpty
+    · right; simp [bestRank, hh]
+    · left; simp [bestRank, hh]
+  · left; simp
+
+/-- `$dnstype` filters: a rule restricted to other types, or excluding this one, does not match. -/
+theorem C01_rules_dnstype_filters (r : NetRule) (q : ReqInfo)
+    (h : q.dnsType ∈ r.restrTypes ∨ (r.permTypes ≠ [] ∧ q.dnsType ∉ r.permTypes)) :
+    netMatch r q = false := by
+  have : matchDNSType r q.dnsType = false := by
+    unfold matchDNSType
+    have hne : ¬(r.permTypes.isEmpty = true ∧ r.restrTypes.isEmpty = true) := by
+      intro ⟨h1, h2⟩
+      rcases h with h | ⟨h', _⟩
+      · cases hr : r.restrTypes with
+        | nil => rw [hr] at h; cases h
+        | cons _ _ => rw [hr] at h2; cases h2
+      · cases hp : r.permTypes with
+        | nil => exact h' hp
+        | cons _ _ => rw [hp] at h1; cases h1
+    rw [if_neg hne]
+    by_cases hr : r.restrTypes.contains q.dnsType = true
+    · rw [if_pos hr]
+    · rw [if_neg hr]
+      rcases h with h | ⟨h1, h2⟩
+      · exact absurd (List.contains_iff_mem.mpr h) hr
+      · have hp : (!r.permTypes.isEmpty) = true := by cases hp : r.permTypes <;> simp_all
+        rw [if_pos hp]
+        cases hc : r.permTypes.contains q.dnsType
+        · rfl
+        · exact absurd (List.contains_iff_mem.mp hc) h2
+  simp [netMatch, this]
+
+/-- `$denyallow` excludes the listed domains and their subdomains. -/
+theorem C01_rules_denyallow_excludes (r : NetRule) (q : ReqInfo)
+    (h : isDomainOrSubdomainOfAny q.host r.denyallow = true) : netMatch r q = false := by
+  have hne : r.denyallow.isEmpty = false := by
+    cases hd : r.denyallow with
+    | nil => rw [hd] at h; simp [isDomainOrSubdomainOfAny] at h
+    | cons _ _ => rfl
+  have : matchRequestDomain r q.host = false := by
+    unfold matchRequestDomain
+    simp only [hne, Bool.false_eq_true, if_false]
+    split <;> simp [h]
+  simp [netMatch, this]
+
+/-- `$client` scopes a rule: an excluded client, or one outside a non-empty permitted set, is not matched. -/
+theorem C01_rules_client_scopes (r : NetRule) (q : ReqInfo)
+    (h : r.restrClients.containsAny q.clientName q.clientIP = true ∨
+         (r.permClients.len ≠ 0 ∧ r.permClients.containsAny q.clientName q.clientIP = false)) :
+    netMatch r q = false := by
+  have : matchClient r q.clientName q.clientIP = false := by
+    unfold matchClient
+    have hne : ¬(r.restrClients.len = 0 ∧ r.permClients.len = 0) := by
+      intro ⟨h0, h0'⟩
+      rcases h with h | ⟨h1, _⟩
+      · unfold Clients.len at h0
+        have hh : r.restrClients.hosts = [] := by
+          cases hx : r.restrClients.hosts with
+          | nil => rfl
+          | cons _ _ => rw [hx] at h0; simp at h0
+        have hn : r.restrClients.nets = [] := by
+          cases hx : r.restrClients.nets with
+          | nil => rfl
+          | cons _ _ => rw [hx] at h0; simp at h0
+        unfold Clients.containsAny at h
+        rw [hh, hn] at h
+        cases hip : q.clientIP <;> simp [hip] at h
+      · exact h1 h0'
+    rw [if_neg hne]
+    rcases h with h | ⟨h1, h2⟩
+    · rw [if_pos h]
+    · cases hr : r.restrClients.containsAny q.clientName q.clientIP
+      · rw [if_neg (by simp), if_pos h1, h2]
+      · rw [if_pos rfl]
+  simp [netMatch, this]
+
+/-- C01 for engines built from rule lists: the Layer A theorem instantiated with Layer B. -/
+theorem C01_rules_blocked_not_forwarded (block allow : List Rule) (c : Conf) (u : Upstream) (q : Query)
+    (hdom : reserved c q = false) (hb : blockedByRules (ruleEngines block allow) c q = true) :
+    ∃ m ql, handle (ruleEngines block allow) c u q = .done m [] (some ql) ∧
+      syntheticOK c q (hostRuleIPs (ruleEngines block allow) c (qhost q) q.qtype q.qtype) m = true ∧
+      ql.isFiltered = true ∧ (ql.reason = .blockList ∨ ql.reason = .blockedService) :=
+  C01_blocked_not_forwarded _ (C01_rules_engines_wf block allow) c u q hdom hb
+
+/-- … and the spec predicate holds for the model run on any rule lists. -/
+theorem C01_rules_model_meets_spec (block allow : List Rule) (c : Conf) (u : Upstream) (q : Query) :
+    C01.specOK (ruleEngines block allow) c u q (handle (ruleEngines block allow) c u q) = true :=
+  C01_model_meets_spec _ (C01_rules_engines_wf block allow) c u q
+
+/-! ### Non-vacuity (Layer B): a three-line list, parsed from text -/
+
+/-- `||ads.example^`, `@@||ok.ads.example^$important`, `0.0.0.0 hosts.example`, `||tracker.example^` -/
+def exLines : List Bytes :=
+  [[124, 124, 97, 100, 115, 46, 101, 120, 97, 109, 112, 108, 101, 94],
+   [64, 64, 124, 124, 111, 107, 46, 97, 100, 115, 46, 101, 120, 97, 109, 112, 108, 101, 94, 36, 105, 109, 112, 111, 114, 116, 97, 110, 116],
+   [48, 46, 48, 46, 48, 46, 48, 32, 104, 111, 115, 116, 115, 46, 101, 120, 97, 109, 112, 108, 101],
+   [124, 124, 116, 114, 97, 99, 107, 101, 114, 46, 101, 120, 97, 109, 112, 108, 101, 94]]
+
+def exBlock : List Rule := (parseLines exLines).getD []
+
+example : exBlock.length = 4 := by decide
+
+/-- "X.Ads.Example." A -/
+def exQ1 : Query := { name := [88, 46, 65, 100, 115, 46, 69, 120, 97, 109, 112, 108, 101, 46], qtype := tA }
+/-- "ok.ads.example." A -/
+def exQ2 : Query := { name := [111, 107, 46, 97, 100, 115, 46, 101, 120, 97, 109, 112, 108, 101, 46], qtype := tA }
+/-- "hosts.example." AAAA -/
+def exQ3 : Query := { name := [104, 111, 115, 116, 115, 46, 101, 120, 97, 109, 112, 108, 101, 46], qtype := tAAAA }
+
+set_option maxRecDepth 8000 in
+/-- a sub-domain in mixed case is blocked by `||ads.example^` (hypotheses of `C01_rules_blocked_not_forwarded`) … -/
+example : reserved toyConf exQ1 = false ∧ blockedByRules (ruleEngines exBlock []) toyConf exQ1 = true := by decide
+
+set_option maxRecDepth 8000 in
+/-- … the `@@…$important` exception wins over it (hypotheses of `C01_allow_forwarded`) … -/
+example : allowedName (ruleEngines exBlock []) toyConf (qhost exQ2) tA = true ∧
+    blockedByRules (ruleEngines exBlock []) toyConf exQ2 = false := by decide
+
+set_option maxRecDepth 8000 in
+/-- … and a hosts-style line blocks every query type. -/
+example : blockedByRules (ruleEngines exBlock []) toyConf exQ3 = true := by decide
 
 end AGH.Filter
